@@ -12,6 +12,10 @@
 //	                  per first operation.
 //	-mode detail      re-generates history -hist of -seed and prints, for the state after step -step, every lookup of
 //	                  the given query/options lists with its digest and its full encoded result (failing-input search).
+//	-mode replay      runs the explicit case of -file (universe, pools, operations) and prints it like -mode hist (used by
+//	                  the shrinker of the checks).
+//	-mode options     every options value of a finite grid x 8 queries on every sub-graph of a 6-triple universe; one
+//	                  digest per sub-graph.
 //	-mode shared      concurrent callers sharing one LookupOptions value with LatestAnchor (defect F7).
 //
 // Canonicalisation: graph names, nodes, predicate ids, literals are numbers (positions in the pools); a predicate is
@@ -60,10 +64,28 @@ func zenc(z int64) uint64 {
 }
 
 // ---------------------------------------------------------------- vocabulary
+// an instant as (Unix seconds, nanoseconds) so that instants outside the int64 UnixNano range can be written, and the
+// zone offset in seconds
 type anchor struct {
-	ns  int64
-	off int
+	sec, nsec int64
+	off       int
 }
+
+func (a anchor) plusNs(d int64) anchor {
+	n := a.nsec + d
+	s := a.sec
+	for n < 0 {
+		n += 1e9
+		s--
+	}
+	for n >= 1e9 {
+		n -= 1e9
+		s++
+	}
+	return anchor{s, n, a.off}
+}
+
+func (a anchor) less(b anchor) bool { return a.sec < b.sec || (a.sec == b.sec && a.nsec < b.nsec) }
 
 type pval struct {
 	id int
@@ -92,11 +114,19 @@ var idStrs = []string{"p", "q", "p q", "P"}
 var nodes []*node.Node
 var lits []*literal.Literal
 
-const baseNS = int64(1437311524669618843) // 2015-07-19T13:12:04.669618843Z
+const baseSec, baseNsec = int64(1437311524), int64(669618843) // 2015-07-19T13:12:04.669618843Z
 
 var anchorPool = []anchor{
-	{baseNS, 0}, {baseNS, 3 * 3600}, {baseNS + 1, 0}, {baseNS - 1, -8 * 3600}, {baseNS + 3600*1e9, 0},
-	{baseNS - 86400*1e9, 5*3600 + 1800}, {baseNS + 3600*1e9, -3600},
+	{baseSec, baseNsec, 0}, {baseSec, baseNsec, 3 * 3600}, {baseSec, baseNsec + 1, 0}, {baseSec, baseNsec - 1, -8 * 3600},
+	{baseSec + 3600, baseNsec, 0}, {baseSec - 86400, baseNsec, 5*3600 + 1800}, {baseSec + 3600, baseNsec, -3600},
+	// boundary instants
+	{-62135596800, 0, 0},         // time.Time{}: 0001-01-01T00:00:00Z, IsZero()
+	{0, 0, 0},                    // the Unix epoch
+	{-31536000, 5, 3600},         // before 1970
+	{253402300799, 999999999, 0}, // 9999-12-31T23:59:59.999999999Z
+	{-9223372037, 145224192, 0},  // the smallest instant whose UnixNano fits in an int64 (1677-09-21)
+	{9223372036, 854775807, 0},   // the largest (2262-04-11)
+	{-62135596800, 0, -7 * 3600}, // the zero instant written in another zone (not IsZero-by-representation)
 }
 
 func mkTime(a anchor) time.Time {
@@ -104,7 +134,7 @@ func mkTime(a anchor) time.Time {
 	if a.off != 0 {
 		loc = time.FixedZone("", a.off)
 	}
-	return time.Unix(0, a.ns).In(loc)
+	return time.Unix(a.sec, a.nsec).In(loc)
 }
 
 func must(err error) {
@@ -162,7 +192,7 @@ func pkey(p *pval) string {
 	if p.a == nil {
 		return fmt.Sprintf("%d/imm", p.id)
 	}
-	return fmt.Sprintf("%d/%d", p.id, p.a.ns)
+	return fmt.Sprintf("%d/%d", p.id, mkTime(*p.a).UnixNano()) // Go's UnixNano (wraps outside 1677..2262): what UUID() hashes
 }
 
 func okey(o *oval) string {
@@ -187,7 +217,7 @@ type scenario struct {
 	nodeByS  map[string]int
 	idByS    map[string]int
 	litByS   map[string]int
-	bounds   []int64 // window bounds: stored anchors and +-1ns
+	bounds   []anchor // window bounds: stored anchors and +-1ns
 	nNames   int
 	nameStrs []string
 }
@@ -211,18 +241,20 @@ func (sc *scenario) finish() {
 	for i, l := range lits {
 		sc.litByS[l.String()] = i
 	}
-	seen := map[int64]bool{}
+	seen := map[[2]int64]bool{}
 	for _, p := range sc.preds {
 		if p.a != nil {
 			for _, d := range []int64{-1, 0, 1} {
-				if !seen[p.a.ns+d] {
-					seen[p.a.ns+d] = true
-					sc.bounds = append(sc.bounds, p.a.ns+d)
+				b := p.a.plusNs(d)
+				b.off = 0
+				if !seen[[2]int64{b.sec, b.nsec}] {
+					seen[[2]int64{b.sec, b.nsec}] = true
+					sc.bounds = append(sc.bounds, b)
 				}
 			}
 		}
 	}
-	sort.Slice(sc.bounds, func(i, j int) bool { return sc.bounds[i] < sc.bounds[j] })
+	sort.Slice(sc.bounds, func(i, j int) bool { return sc.bounds[i].less(sc.bounds[j]) })
 	sc.selfCheck()
 }
 
@@ -286,7 +318,7 @@ func randomScenario(r *rand.Rand, usize int) *scenario {
 	sort.Ints(ids)
 	// anchors: always the same instant in two zones and its +1ns neighbour, plus one or two others
 	as := []anchor{anchorPool[0], anchorPool[1], anchorPool[2]}
-	for _, i := range r.Perm(4)[:r.Intn(3)] {
+	for _, i := range r.Perm(len(anchorPool) - 3)[:r.Intn(4)] {
 		as = append(as, anchorPool[3+i])
 	}
 	for _, id := range ids {
@@ -331,7 +363,7 @@ func jPred(p *pval) []int64 {
 	if p.a == nil {
 		return []int64{int64(p.id)}
 	}
-	return []int64{int64(p.id), p.a.ns, int64(p.a.off)}
+	return []int64{int64(p.id), p.a.sec, p.a.nsec, int64(p.a.off), mkTime(*p.a).UnixNano()}
 }
 
 func jObj(o *oval) []int64 {
@@ -389,7 +421,7 @@ func (sc *scenario) encPredicate(p *predicate.Predicate) []uint64 {
 	ta, err := p.TimeAnchor()
 	must(err)
 	_, off := ta.Zone()
-	return []uint64{uint64(id), 1, zenc(ta.UnixNano()), zenc(int64(off))}
+	return []uint64{uint64(id), 1, zenc(ta.Unix()), uint64(ta.Nanosecond()), zenc(int64(off))}
 }
 
 func (sc *scenario) encNode(n *node.Node) uint64 {
@@ -435,22 +467,22 @@ type query struct {
 }
 
 type lopts struct {
-	Max    int    `json:"max"`
-	Lower  *int64 `json:"lower"`
-	Upper  *int64 `json:"upper"`
-	Latest bool   `json:"latest"`
-	Filter []int  `json:"filter"` // [op, field]: op 0 latest 1 isImmutable 2 isTemporal 3 other; field 0 subject 1 predicate 2 object 3 other
-	Offset int    `json:"offset"`
+	Max    int       `json:"max"`
+	Lower  *[2]int64 `json:"lower"` // [Unix seconds, nanoseconds]
+	Upper  *[2]int64 `json:"upper"`
+	Latest bool      `json:"latest"`
+	Filter []int     `json:"filter"` // [op, field]: op 0 latest 1 isImmutable 2 isTemporal 3 other; field 0 subject 1 predicate 2 object 3 other
+	Offset int       `json:"offset"`
 }
 
 func (lo lopts) build() *storage.LookupOptions {
 	out := &storage.LookupOptions{MaxElements: lo.Max, Offset: lo.Offset, LatestAnchor: lo.Latest}
 	if lo.Lower != nil {
-		t := time.Unix(0, *lo.Lower).UTC()
+		t := time.Unix(lo.Lower[0], lo.Lower[1]).UTC()
 		out.LowerAnchor = &t
 	}
 	if lo.Upper != nil {
-		t := time.Unix(0, *lo.Upper).In(time.FixedZone("", 7200))
+		t := time.Unix(lo.Upper[0], lo.Upper[1]).In(time.FixedZone("", 7200))
 		out.UpperAnchor = &t
 	}
 	if lo.Filter != nil {
@@ -822,10 +854,57 @@ func nonEmpty(objs []storage.Graph, ob jobs) []storage.Graph {
 	return out
 }
 
+// batch sizes around powers of two and typical chunk sizes; batches repeat triples, so a small universe is enough
+// bigMax caps the batch sizes (flag -bigmax)
+var bigMax = 5000
+
+var bigSizes = []int{63, 64, 65, 127, 128, 129, 255, 256, 257, 511, 512, 513, 768, 1000, 1023, 1024, 1025, 2048, 4097}
+
+// bigBatch builds a batch of exactly n ranks with repetitions: a prefix drawn from one part of the universe and a
+// suffix drawn from the REST of the universe, the cut placed at a chunk-sized distance from the end (or the start), so
+// that an implementation that drops or repeats a chunk, the first or the last element changes the resulting set.
+func bigBatch(r *rand.Rand, usize, n int) []int {
+	perm := r.Perm(usize)
+	k := 1 + r.Intn(usize-1)
+	a, b := perm[:k], perm[k:]
+	cuts := []int{n - 256, n - 128, n - 64, n - 1, 1, 64, 128, 256, n / 2, r.Intn(n)}
+	cut := cuts[r.Intn(len(cuts))]
+	if cut <= 0 || cut >= n {
+		cut = n / 2
+	}
+	out := make([]int, 0, n)
+	for len(out) < cut {
+		out = append(out, a[r.Intn(len(a))])
+	}
+	for len(out) < n {
+		out = append(out, b[r.Intn(len(b))])
+	}
+	return out
+}
+
 // ---------------------------------------------------------------- generators
-func (w *world) randomOp(r *rand.Rand, stored map[int]map[int]bool) opx {
+func (w *world) randomOp(r *rand.Rand, stored map[int]map[int]bool, big bool) opx {
 	sc := w.sc
 	x := r.Intn(100)
+	if big && len(w.objs) > 0 && r.Intn(8) != 0 { // a very large batch (with repetitions) on the newest object
+		h := len(w.objs) - 1
+		n := bigSizes[r.Intn(len(bigSizes))]
+		for n > bigMax {
+			n = bigSizes[r.Intn(len(bigSizes))]
+		}
+		if len(stored[h]) < len(sc.univ) { // fill the graph first: removes are only observable on stored triples
+			is := r.Perm(len(sc.univ))
+			for len(is) < n {
+				is = append(is, r.Intn(len(sc.univ)))
+			}
+			return opx{kind: "add", h: h, is: is}
+		}
+		kind := "rem"
+		if r.Intn(5) == 0 {
+			kind = "add"
+		}
+		return opx{kind: kind, h: h, is: bigBatch(r, len(sc.univ), n)}
+	}
 	if len(w.objs) == 0 && x >= 20 {
 		return opx{kind: "new", n: r.Intn(sc.nNames)}
 	}
@@ -885,15 +964,15 @@ func (sc *scenario) randomLopts(r *rand.Rand) lopts {
 		if r.Intn(3) != 0 { // a window that is usually non-empty: lower from the lower half, upper from the upper half
 			if r.Intn(4) != 0 {
 				b := sc.bounds[r.Intn((nb+1)/2)]
-				lo.Lower = &b
+				lo.Lower = &[2]int64{b.sec, b.nsec}
 			}
 			if r.Intn(4) != 0 {
 				b := sc.bounds[nb/2+r.Intn(nb-nb/2)]
-				lo.Upper = &b
+				lo.Upper = &[2]int64{b.sec, b.nsec}
 			}
 		} else { // any pair, also lower > upper
 			a, b := sc.bounds[r.Intn(nb)], sc.bounds[r.Intn(nb)]
-			lo.Lower, lo.Upper = &a, &b
+			lo.Lower, lo.Upper = &[2]int64{a.sec, a.nsec}, &[2]int64{b.sec, b.nsec}
 		}
 	}
 	if r.Intn(5) == 0 {
@@ -994,11 +1073,15 @@ func genHistory(seed int64, idx int, maxops int, usize int, c02, c09 bool, uptoS
 	if r.Intn(4) == 0 {
 		nops = 1 + r.Intn(6)
 	}
+	big := idx%8 == 5 // every eighth history alternates full adds and adversarial removes of 63 .. 4097 triples
+	if big {
+		nops = 8 + r.Intn(7)
+	}
 	stored := map[int]map[int]bool{}
 	allQ := sc.allQueries()
 	var ops []opx
 	for i := 0; i < nops; i++ {
-		o := w.randomOp(r, stored)
+		o := w.randomOp(r, stored, big)
 		ops = append(ops, o)
 		res := w.apply(o)
 		if o.kind == "add" || o.kind == "rem" {
@@ -1235,6 +1318,203 @@ func runDetail(seed int64, idx, step, maxops, usize int, spec string, neOnly boo
 	}
 }
 
+// ---------------------------------------------------------------- mode options: the whole option space on every sub-graph
+func optionsScenario() (*scenario, []query) {
+	sc := &scenario{nNames: 1, nameStrs: []string{"?a"}}
+	sc.nodeIx = []int{0}
+	aT, aT1, aH, aHz := anchorPool[0], anchorPool[2], anchorPool[4], anchorPool[6]
+	pImm, pT, pT1, pH, pHz := mkPred(0, nil), mkPred(0, &aT), mkPred(0, &aT1), mkPred(0, &aH), mkPred(0, &aHz)
+	sc.preds = []*pval{pImm, pT, pT1, pH, pHz}
+	oN, oL, oP := mkObj(0, 1, nil), mkObj(1, 0, nil), mkObj(2, 0, pH)
+	sc.objs = []*oval{oN, oL, oP}
+	sc.addTriple(0, pImm, oN)
+	sc.addTriple(0, pT, oN)
+	sc.addTriple(0, pT1, oN)
+	sc.addTriple(0, pH, oN)
+	sc.addTriple(0, pHz, oL)
+	sc.addTriple(0, pImm, oP)
+	sc.finish()
+	qs := []query{{10, 0, 0}, {5, 0, 0}, {6, 4, 0}, {6, 0, 0}, {0, 0, 3}, {3, 0, 0}, {7, 0, 0}, {1, 0, 2}}
+	return sc, qs
+}
+
+func subsetsOf(l []int) [][]int {
+	if len(l) == 0 {
+		return [][]int{{}}
+	}
+	s := subsetsOf(l[1:])
+	out := append([][]int{}, s...)
+	for _, x := range s {
+		out = append(out, append([]int{l[0]}, x...))
+	}
+	return out
+}
+
+func runOptions() {
+	sc, qs := optionsScenario()
+	bounds := []*[2]int64{nil, {baseSec, baseNsec + 1}, {baseSec + 3600, baseNsec}}
+	pgs := []int{-1, 0, 1, 2}
+	var los []lopts
+	// (LatestAnchor, FilterOptions): no filter, the six valid filters, three invalid ones, LatestAnchor alone and with a filter
+	type mode struct {
+		latest bool
+		filter []int
+	}
+	modes := []mode{{false, nil}}
+	for op := 0; op < 3; op++ {
+		for f := 1; f < 3; f++ {
+			modes = append(modes, mode{false, []int{op, f}})
+		}
+	}
+	modes = append(modes, mode{false, []int{0, 0}}, mode{false, []int{3, 1}}, mode{false, []int{2, 3}},
+		mode{true, nil}, mode{true, []int{0, 1}})
+	for _, l := range bounds {
+		for _, u := range bounds {
+			for _, md := range modes {
+				for _, m := range pgs {
+					for _, o := range pgs {
+						los = append(los, lopts{Max: m, Lower: l, Upper: u, Latest: md.latest, Filter: md.filter, Offset: o})
+					}
+				}
+			}
+		}
+	}
+	all := make([]int, len(sc.univ))
+	for i := range all {
+		all[i] = i
+	}
+	var digests []uint64
+	lkStats = [4]int{}
+	lkDistinct = map[[3]uint64]bool{}
+	subs := subsetsOf(all)
+	for _, sub := range subs {
+		w := newWorld(sc)
+		w.apply(opx{kind: "new", n: 0})
+		w.apply(opx{kind: "add", h: 0, is: sub})
+		digests = append(digests, sc.digestState(w.objs, qs, los))
+	}
+	u, strs := sc.jUniverse()
+	jb := []interface{}{}
+	for _, b := range bounds {
+		if b == nil {
+			jb = append(jb, nil)
+		} else {
+			jb = append(jb, *b)
+		}
+	}
+	emit(map[string]interface{}{"kind": "options", "universe": u, "strs": strs, "pools": sc.jPools(), "qs": qs, "bounds": jb,
+		"pgs": pgs, "digests": digests, "options": len(los), "graphs": len(subs), "lookups": len(los) * len(qs) * len(subs),
+		"lookup_stats": lkStats, "lookup_distinct_nonempty": len(lkDistinct)})
+}
+
+// ---------------------------------------------------------------- mode replay: an explicit case
+type replayIn struct {
+	Universe []jTriple        `json:"universe"`
+	Pools    jPools           `json:"pools"`
+	Names    int              `json:"names"`
+	Ops      []jop            `json:"ops"`
+	C09      map[string]*jc09 `json:"c09"` // step number -> queries and options to digest after that step
+}
+
+func predFromJSON(p []int64) *pval {
+	if len(p) == 1 {
+		return mkPred(int(p[0]), nil)
+	}
+	return mkPred(int(p[0]), &anchor{sec: p[1], nsec: p[2], off: int(p[3])})
+}
+
+func samePval(a *pval, j []int64) bool {
+	if a.id != int(j[0]) || (a.a == nil) != (len(j) == 1) {
+		return false
+	}
+	return a.a == nil || (a.a.sec == j[1] && a.a.nsec == j[2] && a.a.off == int(j[3]))
+}
+
+func toInt(x interface{}) int { return int(x.(float64)) }
+
+func runReplay(file string, c02, c09 bool) {
+	raw, err := os.ReadFile(file)
+	must(err)
+	var in replayIn
+	must(json.Unmarshal(raw, &in))
+	sc := &scenario{nNames: in.Names, nameStrs: []string{"?a", "?b", "?A"}[:in.Names]}
+	sc.nodeIx = in.Pools.Nodes
+	for _, p := range in.Pools.Preds {
+		sc.preds = append(sc.preds, predFromJSON(p))
+	}
+	findPred := func(j []int64) *pval {
+		for _, p := range sc.preds {
+			if samePval(p, j) {
+				return p
+			}
+		}
+		return predFromJSON(j)
+	}
+	for _, o := range in.Pools.Objs {
+		if o[0] == 2 {
+			sc.objs = append(sc.objs, mkObj(2, 0, findPred(o[1:])))
+		} else {
+			sc.objs = append(sc.objs, mkObj(int(o[0]), int(o[1]), nil))
+		}
+	}
+	findObj := func(j []int64) *oval {
+		for _, o := range sc.objs {
+			if fmt.Sprint(jObj(o)) == fmt.Sprint(j) {
+				return o
+			}
+		}
+		if j[0] == 2 {
+			return mkObj(2, 0, findPred(j[1:]))
+		}
+		return mkObj(int(j[0]), int(j[1]), nil)
+	}
+	for _, t := range in.Universe {
+		sc.addTriple(t.S, findPred(t.P), findObj(t.O))
+	}
+	want := make([]string, len(sc.univ))
+	for i, t := range sc.univ {
+		want[i] = t.str
+	}
+	sc.finish()
+	for i, t := range sc.univ { // the universe must arrive in rank order, ranks are referenced by the operations
+		if t.str != want[i] {
+			must(fmt.Errorf("replay universe is not in String() order at %d", i))
+		}
+	}
+	w := newWorld(sc)
+	out := histOut{Kind: "hist", Idx: 0, Names: sc.nNames, Pools: sc.jPools(), PagesBad: []pageBad{}}
+	out.Universe, out.Strs = sc.jUniverse()
+	lkStats = [4]int{}
+	lkDistinct = map[[3]uint64]bool{}
+	allQ := sc.allQueries()
+	for i, jo := range in.Ops {
+		o := opx{kind: jo[0].(string)}
+		switch o.kind {
+		case "new", "get", "drop":
+			o.n = toInt(jo[1])
+		case "add", "rem":
+			o.h = toInt(jo[1])
+			for _, x := range jo[2].([]interface{}) {
+				o.is = append(o.is, toInt(x))
+			}
+		}
+		ob := w.observe(w.apply(o))
+		if c02 && len(w.objs) > 0 {
+			ob.C02 = sc.digestState(w.objs, allQ, []lopts{{}})
+			out.Lookups += len(w.objs) * len(allQ)
+		}
+		if e := in.C09[fmt.Sprint(i)]; c09 && e != nil && len(w.objs) > 0 {
+			ne := nonEmpty(w.objs, ob)
+			ob.C09 = append(ob.C09, jc09{e.Qs, e.Los, sc.digestState(ne, e.Qs, e.Los)})
+			out.Lookups += len(ne) * len(e.Qs) * len(e.Los)
+		}
+		out.Steps = append(out.Steps, jstep{o.json(), ob})
+	}
+	out.LkStats = lkStats
+	out.LkDist = len(lkDistinct)
+	emit(out)
+}
+
 var enc = json.NewEncoder(os.Stdout)
 
 func emit(v interface{}) { must(enc.Encode(v)) }
@@ -1252,6 +1532,8 @@ func main() {
 	step := flag.Int("step", 0, "step index for -mode detail")
 	spec := flag.String("spec", "", "JSON {qs, los} for -mode detail (default: all queries, default options)")
 	first := flag.Int("first", 0, "index of the first history")
+	file := flag.String("file", "", "case file for -mode replay")
+	flag.IntVar(&bigMax, "bigmax", 5000, "largest batch size used in the big-batch histories")
 	neOnly := flag.Bool("ne", false, "-mode detail: only graph objects that hold triples (as the C09 digests)")
 	flag.Parse()
 	initVocabulary()
@@ -1267,6 +1549,10 @@ func main() {
 		runDetail(*seed, *hist, *step, *maxops, *usize, *spec, *neOnly)
 	case "shared":
 		runShared(8, *n)
+	case "replay":
+		runReplay(*file, *c02, *c09)
+	case "options":
+		runOptions()
 	default:
 		must(fmt.Errorf("unknown mode %q", *mode))
 	}
